@@ -1,4 +1,5 @@
 """C10 - the decoder is total, makes progress and never accepts a corrupted frame."""
+import os
 import time
 
 from hypothesis import strategies as st
@@ -17,7 +18,8 @@ RULE = (
     "truncation at every byte, embedded marker), alone and concatenated with valid frames; (c) "
     "EXHAUSTIVE single-byte edits of a corpus of valid frames: substitution at every position by "
     "each byte of a representative set (quick) or all 255 other values (thorough), deletion at "
-    "every position, insertion of the representative set at every position; (e) live reader: each "
+    "every position, insertion of the representative set at every position; (d, thorough only) a coverage-guided atheris/libFuzzer "
+    "campaign on decode with this oracle inside the target, from an empty and from the valid corpus; (e) live reader: each "
     "malformed input followed by 6 valid frames on a real logged-on endpoint, in one read and in "
     "separate reads. Oracle: decode(silent=True) never raises, 0<=used<=len, the drain loop "
     "terminates within len+1 rounds, a message comes with used>0, any returned raw frame is a slice "
@@ -433,6 +435,51 @@ def faults_shard(acc, thorough):
     faults(acc, thorough_corpus() if thorough else corpus())
 
 
+def atheris_shard(acc, runs, seed, seeded):
+    """Coverage-guided campaign (libFuzzer through atheris) with this module's oracle inside the target; the corpus
+    is empty or the valid corpus. A saved failing input is the reproducible unit (the campaign itself is pinned
+    only approximately by -seed/-runs)."""
+    import json
+    import shutil
+    import subprocess
+    import sys
+    import tempfile
+
+    from vlib.runner import SRC, VERIF, unjson
+
+    deps = os.path.join(VERIF, ".deps")
+    if not os.path.isdir(os.path.join(deps, "atheris")):
+        acc.note("atheris not installed (setup_cmd installs it into .deps): coverage-guided shard skipped")
+        acc.klass("atheris-unavailable")
+        return
+    tmp = tempfile.mkdtemp(prefix="verif_c10_fuzz_")
+    try:
+        corpus = os.path.join(tmp, "corpus")
+        os.makedirs(corpus)
+        if seeded:
+            for i, f in enumerate(corpus_frames()):
+                open(os.path.join(corpus, f"seed{i}"), "wb").write(f)
+        res = os.path.join(tmp, "result.json")
+        env = dict(os.environ, ASYNCFIX_SRC=SRC, PYTHONPATH=os.pathsep.join([SRC, VERIF, deps]), PYTHONHASHSEED="0")
+        cmd = [sys.executable, "-B", "-m", "checks.c10_fuzz", res, corpus, f"-runs={runs}", f"-seed={seed % (2**31 - 1) + 1}", "-max_len=600", "-verbosity=0", "-print_final_stats=0"]
+        r = subprocess.run(cmd, cwd=VERIF, env=env, capture_output=True, text=True, timeout=3000)
+        if not os.path.exists(res):
+            raise RuntimeError(f"atheris campaign produced no result (rc={r.returncode}): {r.stderr[-800:]}")
+        doc = json.load(open(res))
+        for sig, v in doc["violations"].items():
+            acc.violation(sig, v["detail"], unjson(v["case"]))
+        acc.evaluations += doc["executions"]
+        acc.classes["atheris-executions" + ("/seeded-corpus" if seeded else "/empty-corpus")] += doc["executions"]
+        acc.extra["atheris_executions"] = acc.extra.get("atheris_executions", 0) + doc["executions"]
+        acc.extra["atheris_distinct_marker_inputs"] = acc.extra.get("atheris_distinct_marker_inputs", 0) + doc["nontrivial"]
+    finally:
+        shutil.rmtree(tmp, ignore_errors=True)
+
+
+def corpus_frames():
+    return corpus()
+
+
 def EXHAUSTIVE(tier):
     return False
 
@@ -445,6 +492,9 @@ def plan(tier, seed):
     for i in range(4 if not th else 16):
         jobs.append(("hyp_binary", {"n": 3000 if not th else 200000, "seed": derive_seed(seed, PROPERTY, "bin", i)}))
     jobs.append(("live", {"seed": seed, "stride": 4 if not th else 1}))
+    if th:
+        for i in range(6):
+            jobs.append(("atheris_shard", {"runs": 400000, "seed": derive_seed(seed, PROPERTY, "atheris", i), "seeded": i % 2 == 1}))
     return jobs
 
 
